@@ -400,6 +400,61 @@ func runC07(env *lib.Env, rep *lib.Report) {
 		}
 		rep.Bounds["large BIGINT family"] = fmt.Sprintf("%d one- and two-row tables over values around 2^52..2^53 (both signs), AVG with and without GROUP BY", len(sets))
 	}
+	// aggregates over joins of tables of every width 1..5 x 1..3 (how many columns a row has decides how its storage is
+	// laid out and shared when rows are glued together): several right rows per left row, grouped by a column of each side
+	if env.Shard == 5%env.NShards {
+		var pairs int
+		for ln := 1; ln <= 5; ln++ {
+			for rn := 1; rn <= 3; rn++ {
+				pairs++
+				var lc, rc []mCol
+				for i := 0; i < ln; i++ {
+					lc = append(lc, mCol{fmt.Sprintf("c%d", i), "int"})
+				}
+				for i := 0; i < rn; i++ {
+					rc = append(rc, mCol{fmt.Sprintf("d%d", i), "int"})
+				}
+				var lrows, rrows [][]any
+				for r := 1; r <= 2; r++ {
+					row := make([]any, ln)
+					for i := range row {
+						row[i] = int64(r*10 + i)
+					}
+					row[0] = int64(r)
+					lrows = append(lrows, row)
+				}
+				for r, k := range []int64{1, 1, 2, 3} {
+					row := make([]any, rn)
+					for i := range row {
+						row[i] = int64(100*(r+1) + i)
+					}
+					row[0] = k
+					rrows = append(rrows, row)
+				}
+				last := fmt.Sprintf("d%d", rn-1)
+				wq := []*qQuery{
+					{items: []qItem{{kind: "col", col: qRef{"wl", "c0"}}, {kind: "col", col: qRef{"wr", last}}, {kind: "count*"}}, from: []qJoin{{table: "wl"}, {kind: "JOIN", table: "wr", on: &qCond{atoms: []qAtom{{qc("wl", "c0"), qc("wr", "d0"), "<="}}}}},
+						groupBy: []qRef{{"wl", "c0"}, {"wr", last}}, limit: -1, offset: -1},
+					{items: []qItem{{kind: "col", col: qRef{"wl", "c0"}}, {kind: "count*"}, {kind: "count", col: qRef{"wr", last}}}, from: []qJoin{{table: "wl"}, {kind: "LEFT JOIN", table: "wr", on: &qCond{atoms: []qAtom{{qc("wl", "c0"), qc("wr", "d0"), "="}}}}},
+						groupBy: []qRef{{"wl", "c0"}}, limit: -1, offset: -1},
+					{items: []qItem{{kind: "col", col: qRef{"wr", last}}, {kind: "count*"}}, from: []qJoin{{table: "wl"}, {kind: "RIGHT JOIN", table: "wr", on: &qCond{atoms: []qAtom{{qc("wl", "c0"), qc("wr", "d0"), "="}}}}},
+						groupBy: []qRef{{"wr", last}}, limit: -1, offset: -1},
+				}
+				worlds++
+				x := lib.RunOnce(func(c *lib.Ctx) {
+					qw := newQWorld(c, []*qTable{{name: "wl", cols: lc, rows: lrows}, {name: "wr", cols: rc, rows: rrows}})
+					defer qw.w.destroy()
+					for _, q := range wq {
+						r.check(qw, q, "join/table-widths", "")
+					}
+				}, nil)
+				if x.Fail != nil {
+					rep.AddFailure(x.Fail)
+				}
+			}
+		}
+		rep.Bounds["join widths"] = fmt.Sprintf("%d pairs of tables of 1..5 x 1..3 columns, 2 left rows x 4 right rows, three grouped join queries each", pairs)
+	}
 	// AVG over negative and mixed-sign values (rounding to the nearest integer on both sides of zero): every
 	// multiset of 1..3 rows over w in {-7, -3, -2, -1, 2, 5}, in every row order, with and without GROUP BY
 	if env.Shard == 4%env.NShards {
